@@ -439,7 +439,7 @@ def r53_54(db, ctx):
             b1 = m(('call~', '::index', (('p', 1), ('agg', '_', ('$i',)))), a1)
             b2 = m(('call~', '::index_mut', (('p', 2), ('agg', '_', ('$i',)))), a2)
             rels = G.relations(f, R, bi)
-            if b1 is not None and b2 is not None and b1['$i'] == b2['$i'] and b1['$i'][0] == 'v' and f.local_name(b1['$i'][1]) == 'i':
+            if b1 is not None and b2 is not None and b1['$i'] == b2['$i'] and b1['$i'][0] == 'v' and is_block_counter(db, f, b1['$i'][1], W):
                 lt = G.holds(rels, 'lt', lambda e: norm(e) == b1['$i'], lambda e: common.is_len_of(e))
                 # result propagated: a Try::branch on the call result
                 tb = t.get('target')
@@ -451,9 +451,64 @@ def r53_54(db, ctx):
                     ok4 = True
                 else:
                     why = f'guard i < len: {bool(lt)} (loop invariant i <= len: {inv}), result propagated: {propagated}'
+            elif chunk_tail(f, R, a1, a2, W):
+                # `src_blocks.remainder()` / `dst_blocks.into_remainder()` of the chunk iterators that drove the block loop: the elements after
+                # the last whole block of W, at the same offset in both slices (their lengths are asserted equal on entry)
+                propagated = any((f.callee_short(t2) or '').endswith('Try::branch') and f.dominates(bi, b2_) for b2_, t2 in f.calls())
+                ok4 = propagated
+                why = f'result propagated: {propagated}'
             else:
                 why = f'tail called on {X.show(a1, 60)} / {X.show(a2, 60)}'
         (ctx.ok if ok4 else ctx.fail)('R5.4', f, 'generic tail on seq[i..], dst[i..] under i < len, result propagated with ?', *([['same i for source and destination']] if ok4 else [why]))
+
+
+def chunk_tail(f, R, a1, a2, W):
+    """a1 = remainder of seq.chunks_exact(W), a2 = (into_)remainder of dst.chunks_exact_mut(W), and those two iterators are the ones the
+    block loop draws its blocks from (`.by_ref()`), so nothing between the last block and the tail is skipped or encoded twice."""
+    b1 = m(('call~', ('ChunksExact::remainder',), ('$it',)), a1)
+    b2 = m(('call~', ('ChunksExactMut::into_remainder', 'ChunksExactMut::remainder'), ('$it',)), a2)
+    if b1 is None or b2 is None:
+        return False
+
+    def source(it):
+        it = norm(it)
+        if it[0] == 'v':
+            ds = f.defs().get(it[1], [])
+            if len(ds) != 1 or ds[0][1] != 'term':
+                return None
+            it = norm(R.call(ds[0][2]))
+        mm = m(('call~', ('slice::chunks_exact', 'slice::chunks_exact_mut'), ('$x', ('k', '$n'))), it)
+        return (mm['$x'], mm['$n'], it) if mm is not None else None
+    s1, s2 = source(b1['$it']), source(b2['$it'])
+    if s1 is None or s2 is None or s1[0] != ('p', 1) or s2[0] != ('p', 2) or s1[1] != W or s2[1] != W:
+        return False
+    # the block loop iterates zip(by_ref(<the same two iterators>))
+    l1, l2 = norm(b1['$it']), norm(b2['$it'])
+    for bi, t in f.calls():
+        if (f.callee_short(t) or '').endswith('Iterator::zip') and len(t['args']) == 2:
+            z = [norm(R.operand(a_)) for a_ in t['args']]
+            via = [m(('call~', 'Iterator::by_ref', ('$x',)), z_) for z_ in z]
+            zs = [source(v['$x']) if v is not None else source(z_) for v, z_ in zip(via, z)]
+            # the blocks are drawn from chunk iterators over the same slices with the same block length (the remainder of a chunk iterator
+            # does not depend on how far it has been advanced)
+            if all(x is not None for x in zs) and (zs[0][0], zs[0][1]) == (s1[0], s1[1]) and (zs[1][0], zs[1][1]) == (s2[0], s2[1]):
+                return True
+    return False
+
+
+def is_block_counter(db, f, l, W):
+    """Local l is the counter of the block loop: starts at 0 and advances by W per iteration (whatever it is called)."""
+    from . import C06
+    fE, E, err = KN.evaluate(db, f.path)
+    if E is None:
+        return False
+    for H, L in E.loops.items():
+        if L.opaque:
+            continue
+        for cl, cinit, cstep in C06.counter_relation(E, H):
+            if cl == l and norm(cinit) == ('k', 0) and cstep == W:
+                return True
+    return False
 
 
 def tail_index_invariant(db, f, i_local):
@@ -567,7 +622,9 @@ def r55_56(db, ctx):
                         others = [t_ for t_ in f.succs(r_[-1]) if not f.dominates(t_, s_['block']) and f.term(t_)['k'] != 'unreachable']
                         payload = bool(others) and all(returns_err(f, t_) for t_ in others)
             ext = CA.extents.get(L, [])
-            whole = bool(ext) and seqe is not None and all(c_[0] == 'len' and c_[1] in (seqe, tgc[1]) for c_ in ext) and any(c_[1] == seqe for c_ in ext)
+            comp_of = lambda c_: c_[1] if c_[0] == 'len' else (norm(c_[1][2][0]) if c_[0] == 'sub' and c_[2] == ('k', 0) and c_[1][0] == 'call' and c_[1][1].endswith('::len') and len(c_[1][2]) == 1
+                                                                 else (c_[1][1] if c_[0] == 'sub' and c_[2] == ('k', 0) and c_[1][0] == 'len' else None))
+            whole = bool(ext) and seqe is not None and all(comp_of(c_) in (seqe, tgc[1]) for c_ in ext) and any(comp_of(c_) == seqe for c_ in ext)
             if tgc[1] == ('p', 3) and src_ok and payload and whole and seqe in (('p', 2), ('call', 'core::convert::AsRef::as_ref', (('p', 2),))):
                 ok = True
             else:
